@@ -321,6 +321,13 @@ func (f *Frame) execLoopInv(sh *loopShape, spec *LoopSpec, st *State) []Outcome 
 	if f.loopEntries == nil {
 		f.loopEntries = map[int]*State{}
 	}
+	// ghost iteration counter iter<N>: completed iterations of this loop (0 at entry, +1 per back edge)
+	iterC := in.newCell(fmt.Sprintf("iter%d", sh.ord), CVar, nil)
+	st.store[iterC] = Sc{IntLit(0)}
+	if f.ghostCells == nil {
+		f.ghostCells = map[string]*Cell{}
+	}
+	f.ghostCells[fmt.Sprintf("iter%d", sh.ord)] = iterC
 	f.loopEntries[sh.ord] = st.clone()
 	// 1. entry
 	for i, inv := range spec.Invariants {
@@ -333,6 +340,11 @@ func (f *Frame) execLoopInv(sh *loopShape, spec *LoopSpec, st *State) []Outcome 
 	h := st
 	for _, c := range mod {
 		in.havocCell(h, c, f)
+	}
+	{
+		it := in.D.fresh(fmt.Sprintf("iter%d", sh.ord), SInt)
+		h.store[iterC] = Sc{it}
+		h.assume(Le(IntLit(0), it))
 	}
 	for _, inv := range spec.Invariants {
 		h.assume(envFor(h).evalBool(inv.E))
@@ -370,6 +382,9 @@ func (f *Frame) execLoopInv(sh *loopShape, spec *LoopSpec, st *State) []Outcome 
 					o.St.assume(goal)
 				}
 				for _, ps := range sh.post(o.St) {
+					if cur, ok := ps.store[iterC].(Sc); ok {
+						ps.store[iterC] = Sc{Add(cur.T, IntLit(1))}
+					}
 					for i, inv := range spec.Invariants {
 						goal := envFor(ps).evalBool(inv.E)
 						f.oblige(ps, "loopinv", fmt.Sprintf("%s#loop%d.inv:%d.preserve", f.key, sh.ord, i+1), sh.pos, goal, inv.Text)
